@@ -9,6 +9,8 @@ import Hw.Io.SyntheticFaithful
 import Hw.Io.SyntheticTopo
 import Hw.Io.SyntheticDump
 import Hw.Io.SyntheticDumpLemmas
+import Hw.Io.SyntheticFilter
+import Hw.Io.SyntheticFilterLemmas
 namespace Hw.Props.C07
 open Hw Hw.Syn Hw.Topo
 
@@ -233,6 +235,118 @@ theorem C07_dump_structure (t : Topo) :
       ∃ r, (toDump t).objs[0]? = some r ∧ r.type = tMACHINE ∧ r.depth = 0 ∧ r.parent = -1 ∧ r.id = 0) ∧
     ((toDump t).levels.length = (toDump t).depth + 6 ∧ (toDump t).typeDepths.length = tMAX) :=
   ⟨toDump_ids t, toDump_id_is_position t, toDump_root t, toDump_levels_listed t⟩
+
+/-! ### attached NUMA nodes and type filters -/
+
+/-- **every NUMA node of the description is present after load, whatever the type filters**: the NUMA nodes an accepted
+description describes (`census`, compared on every loaded case with the NUMA nodes of the real topology: os_index, local
+memory, memory-side cache, cpuset) are one per object of every level per `[NUMA...]` item attached to it (plus the objects
+of a NUMANode level) — no filter of a normal object type appears: a node attached to a level whose objects are not
+built (I-caches by default, any type set to KEEP_NONE) is still there -/
+theorem C07_attached_numa_present (mc : Bool) (p : Parsed) : (census mc p).length = describedNumas p :=
+  census_length mc p
+
+/-- ... and only the memory-side caches depend on a filter (the MemCache one): os_index, local memory and cpuset of every node
+are the same under all filters -/
+theorem C07_numa_census_filter_independent (a b : Bool) (p : Parsed) :
+    (census a p).map (fun r => (r.os, r.mem, r.cpus)) = (census b p).map (fun r => (r.os, r.mem, r.cpus)) :=
+  census_filter_indep a b p
+
+/-- hwloc_topology_set_type_filter cannot filter out PUs, NUMA nodes or the Machine, and never removes Groups from KEEP_STRUCTURE
+to KEEP_ALL: for every request list -/
+theorem C07_unfilterable_types (req : List (Option Nat)) :
+    keeps (effFilters req) tPU = true ∧ keeps (effFilters req) tNUMA = true ∧ keeps (effFilters req) tMACHINE = true ∧
+    (effFilters req)[tGROUP]?.getD 0 ≠ fKeepAll := by
+  refine ⟨?_, ?_, ?_, ?_⟩
+  · unfold keeps; rw [effFilters_get req tPU (by decide)]
+    cases req[tPU]?.getD none with
+    | none => decide
+    | some v => simp only [applyReq, setFilter, tPU, true_or, if_true]; split <;> decide
+  · unfold keeps; rw [effFilters_get req tNUMA (by decide)]
+    cases req[tNUMA]?.getD none with
+    | none => decide
+    | some v => simp only [applyReq, setFilter, tNUMA, tPU, true_or, or_true, if_true]; split <;> decide
+  · unfold keeps; rw [effFilters_get req tMACHINE (by decide)]
+    cases req[tMACHINE]?.getD none with
+    | none => decide
+    | some v => simp only [applyReq, setFilter, tMACHINE, tPU, tNUMA, or_true, if_true]; split <;> decide
+  · rw [effFilters_get req tGROUP (by decide)]
+    cases req[tGROUP]?.getD none with
+    | none => decide
+    | some v =>
+      by_cases hv : v = fKeepAll ∨ v = fKeepImportant
+      · rcases hv with rfl | rfl <;> decide
+      · have h1 : setFilter tGROUP (initFilters[tGROUP]?.getD 0) v = v := by
+          unfold setFilter
+          rw [if_neg (by decide), if_neg (by decide), if_pos rfl, if_neg hv]
+        simp only [applyReq, h1]
+        intro h0; exact hv (Or.inl h0)
+
+/-- **removing the levels that are not built loses no NUMA node**, for every chain of levels, every marking of levels as
+filtered out (`virt`) and every memory attached to them: when `devirt` (the step of `buildTopo` that models what the core does
+with the NUMA nodes hwloc__look_synthetic inserts for a level whose objects it does not create) succeeds, the resulting chain
+has exactly as many NUMA nodes (memory children per object x objects per level, root included) as the description, and no
+unbuilt level is left -/
+theorem C07_filtered_levels_keep_numas (ls ls' : List NLevel) (rm rm' : List MemChild)
+    (h : devirt ls [] rm 1 [] = some (ls', rm')) :
+    rm'.length + numaCountFrom 1 ls' = rm.length + numaCountFrom 1 ls ∧ ∀ l ∈ ls', l.virt = false :=
+  ⟨devirt_keeps_numas ls ls' rm rm' h, devirt_no_virt ls [] rm 1 [] (ls', rm') (by simp) h⟩
+
+/-- non-vacuity: "Package:2 L1iCache:2 [NUMA] [NUMA] PU:2" with the I-cache level not built: a Group level takes its place and
+carries the four NUMA nodes -/
+example : devirt [{ type := tPACKAGE, arity := 2 }, { type := tL1I, arity := 2, virt := true, mem := [⟨1, 0⟩, ⟨2, 0⟩] }, { type := tPU, arity := 2 }]
+    [] [] 1 [] = some ([{ type := tPACKAGE, arity := 2 }, { type := tGROUP, arity := 2, memGroup := true, mem := [⟨1, 0⟩, ⟨2, 0⟩] },
+      { type := tPU, arity := 2 }], []) := by decide
+
+/-- descriptions with NUMA nodes attached to a level that is not built, with the type-filter requests made before load
+(`none` = default): I-cache levels under the default filters, Package / Core / L2 set to KEEP_NONE; every placement rule of
+`devirt` (Group in place of the missing level, the only child, the parent, the root, above a PU) -/
+def filteredFamily : List (String × List (Option Nat)) :=
+  let dflt : List (Option Nat) := []
+  let none1 (t : Nat) : List (Option Nat) := (List.range tMAX).map (fun i => if i = t then some fKeepNone else none)
+  [ ("Package:2 L1iCache:2 [NUMA(memory=1GB)] PU:2", dflt),
+    ("Package:2 [NUMA(memory=1GB)] [NUMA(memory=1MB memorysidecachesize=4kB)] Core:2 PU:2", none1 tPACKAGE),
+    ("Package:2 L2Cache:1 [NUMA] Core:2 PU:1", none1 tL2),
+    ("Package:2 L1iCache:2 [NUMA] Core:1 PU:2", dflt),
+    ("L1iCache:1 [NUMA] Core:2 PU:1", dflt),
+    ("Core:2 L1iCache:1 [NUMA] PU:1", dflt),
+    ("Core:2 L1iCache:2 [NUMA] PU:1", dflt),
+    ("[NUMA] Package:2 L3iCache:2 [NUMA] L2iCache:1 L1iCache:2 Core:1 PU:1", dflt),
+    ("Package:2 Core:2 [NUMA(indexes=3,2,1,0)] PU:2", none1 tCORE),
+    ("Package:2 L1iCache:2 [NUMA] PU:2", legacyReq) ]
+
+def familyOk (c : String × List (Option Nat)) : Bool :=
+  match parse (str c.1) with
+  | .ok p =>
+    match buildTopo (effFilters c.2) p with
+    | some t => numaCount t == describedNumas p && decide (0 < describedNumas p) && (wfCheck (toDump t)).isEmpty &&
+                t.levels.all (fun l => keeps (effFilters c.2) l.type)
+    | none => false
+  | .error _ => false
+
+theorem filteredFamily_checked : filteredFamily.all familyOk = true := by decide +kernel
+
+/-- **attached NUMA nodes survive the filtering of their level, bounded** (complete finite table, kernel-evaluated): each
+description of the family is accepted and Regular under its filters, the topology `buildTopo` predicts contains no object
+of a filtered-out type, has exactly the NUMA nodes written in the description, and its complete dump is well-formed.  For all
+other descriptions and filters the same comparison runs on every generated case (engine `synthetic`, ops `load` / `numas`). -/
+theorem C07_attached_numa_survive_filters_bounded : ∀ c ∈ filteredFamily, ∃ p t,
+    parse (str c.1) = .ok p ∧ buildTopo (effFilters c.2) p = some t ∧ numaCount t = describedNumas p ∧ 0 < describedNumas p ∧
+    WF (toDump t) ∧ ∀ l ∈ t.levels, keeps (effFilters c.2) l.type = true := by
+  intro c hc
+  have h := filteredFamily_checked
+  rw [List.all_eq_true] at h
+  have hc' := h c hc
+  unfold familyOk at hc'
+  split at hc'
+  · rename_i p hp
+    split at hc'
+    · rename_i t ht
+      simp only [Bool.and_eq_true, beq_iff_eq, decide_eq_true_eq, List.all_eq_true] at hc'
+      refine ⟨p, t, hp, ht, hc'.1.1.1, hc'.1.1.2, ?_, hc'.2⟩
+      rw [← wfCheck_iff]; simpa using hc'.1.2
+    · cases hc'
+  · cases hc'
 
 /-! ### non-vacuity and regression witnesses (the former defect inputs, now ordinary cases) -/
 
